@@ -110,6 +110,12 @@ func asyncRun(c rcfg, seq []int) (msg string, ok bool) {
 			msg = fmt.Sprintf("answers read %v, want (one per request, the pod holding X when it was made) %v", got, want)
 		}
 	})
+	if out.Kind == "free-timeout" {
+		// the process did not come to rest in time (an overloaded machine): that says nothing about the property
+		res.Counters["async_sequences_inconclusive"]++
+		res.Exhaustive = false
+		return "", true
+	}
 	if out.Kind != "ok" && msg == "" {
 		msg = out.Kind + ": " + out.Detail
 	}
